@@ -1600,7 +1600,9 @@ def kernel32_lstrlenA(jitter):
 
 
 def kernel32_lstrlenW(jitter):
-    my_strlen(jitter, whoami(), lambda addr:get_win_str_w(jitter, addr), len)
+    # Length in WCHAR (UTF-16 code units)
+    my_strlen(jitter, whoami(), lambda addr:get_win_str_w(jitter, addr),
+              lambda s: len(s.encode("utf-16le")) // 2)
 
 
 def kernel32_lstrlen(jitter):
@@ -2820,7 +2822,8 @@ def msvcrt_srand(jitter):
 def msvcrt_wcslen(jitter):
     ret_ad, args = jitter.func_args_cdecl(["pwstr"])
     s = get_win_str_w(jitter, args.pwstr)
-    jitter.func_ret_cdecl(ret_ad, len(s))
+    # Length in wchar_t (UTF-16 code units)
+    jitter.func_ret_cdecl(ret_ad, len(s.encode("utf-16le")) // 2)
 
 def kernel32_SetFilePointer(jitter):
     ret_ad, args = jitter.func_args_stdcall(["hwnd", "dinstance",
